@@ -8,6 +8,7 @@ import filecmp
 import hashlib
 import itertools as it
 import logging
+import math
 import numbers
 import os
 import re
@@ -129,7 +130,7 @@ def average_coverage(
     if len(platforms) == 0:
         return float("nan")
 
-    total = sum([coverage(setmap, [p]) for p in platforms])
+    total = math.fsum([coverage(setmap, [p]) for p in platforms])
     return total / len(platforms)
 
 
@@ -138,16 +139,15 @@ def distance(setmap, p1, p2):
     Compute distance between two platforms
     """
     total = 0
+    different = 0
     for pset, count in setmap.items():
         if (p1 in pset) or (p2 in pset):
             total += count
+        if (p1 in pset) ^ (p2 in pset):
+            different += count
     if total == 0:
         return float("nan")
-    d = 0
-    for pset, count in setmap.items():
-        if (p1 in pset) ^ (p2 in pset):
-            d += count / float(total)
-    return d
+    return different / float(total)
 
 
 def divergence(setmap):
@@ -157,15 +157,14 @@ def divergence(setmap):
     """
     platforms = extract_platforms(setmap)
 
-    d = 0
-    npairs = 0
-    for p1, p2 in it.combinations(platforms, 2):
-        d += distance(setmap, p1, p2)
-        npairs += 1
+    distances = [
+        distance(setmap, p1, p2) for p1, p2 in it.combinations(platforms, 2)
+    ]
+    npairs = len(distances)
 
     if npairs == 0:
         return float("nan")
-    return d / float(npairs)
+    return math.fsum(distances) / float(npairs)
 
 
 def summary(setmap: defaultdict[str, int], stream: TextIO = sys.stdout):
